@@ -110,6 +110,43 @@ static std::string handle(const std::string& op, const Args& a)
         });
         return join(bytes_of(out));
     }
+    if (op == "mod_long") {      // mod_long <can> <nsrc> src.. <ndst> dst.. <naudio blocks> <lo> <hi> : bitstream of a long transmission of pseudo-random audio;
+                                 // reply: <total bytes> | bytes of stream frames lo..hi-1 | codec2 payloads (16 bytes each) of the same frames from a fresh codec
+        bitstream = true; invert = false; can = int8_t(a.at(0));
+        size_t ns = size_t(a.at(1)); std::string src, dst;
+        for (size_t i = 0; i < ns; ++i) src.push_back(char(a.at(2 + i)));
+        size_t nd = size_t(a.at(2 + ns));
+        for (size_t i = 0; i < nd; ++i) dst.push_back(char(a.at(3 + ns + i)));
+        size_t off = 3 + ns + nd;
+        size_t nblocks = size_t(a.at(off)), lo = size_t(a.at(off + 1)), hi = size_t(a.at(off + 2));
+        auto sample = [](size_t i) { uint32_t x = uint32_t(i) * 2654435761u; x ^= x >> 13; return int16_t(int(x % 16001) - 8000); };
+        auto out = capture([&]{
+            send_preamble();
+            auto lsf = send_lsf(src, dst);
+            running = true;
+            queue_t queue;
+            std::thread thd([&queue, &lsf](){ transmit(queue, lsf); });
+            for (size_t i = 0; i < nblocks * 320; ++i) if (!queue.put(sample(i), std::chrono::seconds(300))) break;
+            running = false;
+            queue.close();
+            thd.join();
+        });
+        std::string r = std::to_string(out.size()) + " |";
+        for (size_t k = lo; k < hi; ++k) {
+            size_t base = 48 + 48 + 48 * k;
+            for (size_t j = 0; j < 48 && base + j < out.size(); ++j) r += " " + std::to_string((unsigned char)out[base + j]);
+        }
+        r += " |";
+        struct CODEC2* c = ::codec2_create(CODEC2_MODE_3200);
+        for (size_t k = 0; k < hi && k <= nblocks; ++k) {
+            audio_frame_t au; au.fill(0);
+            if (k < nblocks) for (size_t i = 0; i < 320; ++i) au[i] = sample(k * 320 + i);
+            auto e = encode(c, au);
+            if (k >= lo) for (auto x : e) r += " " + std::to_string((unsigned)x);
+        }
+        ::codec2_destroy(c);
+        return r;
+    }
     if (op == "mod_preamble") { bitstream = a.at(0) != 0; invert = a.at(1) != 0; return join(bytes_of(capture([&]{ send_preamble(); }))); }
     if (op == "mod_eot") { bitstream = a.at(0) != 0; invert = a.at(1) != 0; return join(bytes_of(capture([&]{ output_eot(); }))); }
     return "bad-op";
